@@ -106,6 +106,29 @@ def child(tier):
                                             'detail': f'python -O={sys.flags.optimize}: list with {c} roCreate, {d} roDelete, {o} other, odd-ID member={odd}, '
                                                       f'allow_incomplete={allow}: from_strings says {res}, from_{ctor} says {r2}',
                                             'documents': texts, 'allow_incomplete': allow, 'optimize': sys.flags.optimize})
+            # the plain constructor over a list of readers, twice over the SAME list object: the verdict
+            # must not depend on the list having been used before
+            try:
+                readers = [ns.mc.MosReader.from_string(t) for t in texts]
+            except Exception:  # noqa
+                readers = None
+            if readers is not None and len(readers) > 0:
+                verdicts = []
+                for _ in range(2):
+                    try:
+                        ns.mc.MosCollection(sorted(readers) if _ < 0 else readers, allow_incomplete=allow)
+                        verdicts.append('accepted')
+                    except ns.exc.InvalidMosCollection:
+                        verdicts.append('InvalidMosCollection')
+                    except Exception as e:  # noqa
+                        verdicts.append('BUILTIN:' + type(e).__name__)
+                out['other_constructors'] += 2
+                if (verdicts[0] != res or verdicts[1] != res) and 'ctor:direct' not in seen:
+                    seen.add('ctor:direct')
+                    out['findings'].append({'sig': f'O={sys.flags.optimize}:constructor-direct-differs', 'count': 1,
+                                            'detail': f'python -O={sys.flags.optimize}: list with {c} roCreate, {d} roDelete, {o} other, odd-ID member={odd}, '
+                                                      f'allow_incomplete={allow}: from_strings says {res}, MosCollection(readers) called twice on one list says {verdicts}',
+                                            'documents': texts, 'allow_incomplete': allow, 'optimize': sys.flags.optimize})
         sig = None
         if expect and res != 'accepted':
             sig = f'valid-rejected:{res}'
